@@ -126,7 +126,14 @@ static void gen_case(long it)
         } else if (kind < 6) {
                 for (int i = 0; i < m; i++) p[i] = rnd() % sig;
         } else if (kind < 7) {
-                if (rnd() & 1) {
+                int sub = rnd() % 3;
+                if (sub == 2) {
+                        /* homopolymer stretches: whole 64-bit words of a letter's match vector are empty or full */
+                        static const int rls[] = { 16, 32, 63, 64, 65, 128 };
+                        int rl = rls[rnd() % 6], tl = 20 + rnd() % 60;
+                        for (int i = 0; i < m; i++) p[i] = (uint8_t)((i / rl) % sig);
+                        for (int i = 0; i < n; i++) t[i] = (uint8_t)((rnd() % 4 == 0) ? rnd() % sig : (i / tl) % sig);
+                } else if (sub == 1) {
                         /* block-composed pattern: consecutive segments over disjoint letter subsets (a letter of one 64-symbol word does not
                            occur in the following words: long carry chains in the multi-word adders) */
                         int seg = 16 + rnd() % 120;
